@@ -204,3 +204,85 @@ def long_history_probe(rep):
             rep.violations.append(f)
     rep.coverage.setdefault("families", {})["c19-long-history"] = {"cases": n, "calls": sum(len(o) for o in sessions.values())}
     rep.coverage["evaluations"] = rep.coverage.get("evaluations", 0) + n
+
+
+IMPORT_STORIES = [
+    # stories whose import lines bind functions, classes and modules (their variables are beyond the value observer of the
+    # play families): compared call by call through what the player sees and what a save holds
+    ("from math import floor\nimport math\nfrom bardic.stdlib.dice import roll\nfrom bardic.stdlib.economy import Wallet\nimport bardic.stdlib.inventory as invmod\n"
+     ":: Start\n~ gold = 10\n~ purse = Wallet(7)\n~ bag = invmod.Inventory(5)\nGate {gold}.\n+ [pay] -> Toll\n+ [look] -> Look\n\n"
+     ":: Toll\n~ gold = floor(gold / 3)\n~ purse.spend(2)\n~ name = roll.__name__\nLeft {gold}, purse {purse.gold}, {name}, {math.ceil(gold / 2)}.\n+ [back] -> Start2\n+ [look] -> Look\n\n"
+     ":: Start2\nAgain {gold} {purse.gold} {type(purse).__name__} {type(bag).__name__}.\n+ [pay] -> Toll\n+ [look] -> Look\n\n"
+     ":: Look\n~ ok = bag.add({'name': 'Gem', 'weight': floor(2.5)})\nBag {len(bag.items)} {ok} {bag.current_weight}.\n+ [back] -> Start2\n"),
+]
+
+
+def import_sessions(rep, n_walks):
+    """histories with save / load / fresh load over stories that use imported functions, classes and modules"""
+    import copy as _copy
+    done = 0
+    for src in IMPORT_STORIES:
+        story = corr_play.compile_source(src)
+        for w in range(n_walks):
+            r = rng_for(rep.seed, "c19-imports", w)
+            kinds = [r.choice(["choose", "choose", "choose", "save", "load", "fresh", "undo", "redo"]) for _ in range(r.randint(4, 14))]
+            picks = [r.randrange(2) for _ in kinds]
+            traces = {}
+            for variant in ("main", "browser"):
+                cls = real_play.engine_class(variant)
+                tr, slots = [], []
+                with quiet():
+                    e = cls(_copy.deepcopy(story))
+                    for k, p in zip(kinds, picks):
+                        try:
+                            if k == "choose":
+                                ch = e.current().choices
+                                o = e.choose(p % len(ch)) if ch else None
+                                tr.append(["choose", o.content if o else None, [c["text"] for c in o.choices] if o else None])
+                            elif k == "save":
+                                d = json.loads(json.dumps(e.save_state()))
+                                slots.append(d)
+                                tr.append(["save", {kk: vv for kk, vv in d.items() if kk in ("state", "used_choices", "current_passage_id")}])
+                            elif k in ("load", "fresh") and slots:
+                                if k == "fresh":
+                                    e = cls(_copy.deepcopy(story))
+                                e.load_state(_copy.deepcopy(slots[p % len(slots)]))
+                                o = e.current()
+                                after = json.loads(json.dumps(e.save_state()))
+                                tr.append([k, o.content, [c["text"] for c in o.choices], after.get("state")])
+                            elif k == "undo":
+                                tr.append(["undo", e.undo(), e.current().content])
+                            elif k == "redo":
+                                tr.append(["redo", e.redo(), e.current().content])
+                        except Exception as ex:  # noqa
+                            tr.append([k, "raise", type(ex).__name__, str(ex)[:100]])
+                traces[variant] = tr
+            done += 1
+            if traces["main"] != traces["browser"]:
+                j = next((i for i, (x, y) in enumerate(zip(traces["main"], traces["browser"])) if x != y), 0)
+                rep.violations.append({"cls": None, "family": "c19-imports", "source": src, "ops": [[k, p] for k, p in zip(kinds, picks)],
+                                       "what": f"main and browser engine disagree at call {j}: main {json.dumps(traces['main'][j])[:240]}, browser {json.dumps(traces['browser'][j])[:240]}"})
+    rep.coverage.setdefault("families", {})["c19-imports"] = {"walks": done}
+    rep.coverage["evaluations"] = rep.coverage.get("evaluations", 0) + done
+
+
+ORDER_STORIES = [
+    # what a choice written inside a block shows when a later part of the same passage changes the value it displays
+    (":: Start\n~ price = 10\n~ n = 0\nShop\n@if price > 5:\n  + [Buy for {price}] -> Start\n  * [Once {n}] -> Start\n@endif\n@for it in [1, 2]:\n  + [Item {it} at {price}] -> Start\n  @if it == 2:\n    + [Deep {it} {price}] -> Start\n  @endif\n@endfor\n"
+     "@if True:\n  ~ price = price - 2\n  ~ n = n + 1\n@endif\n+ [plain {price}] -> Start\n"),
+]
+
+
+def render_order_probe(rep):
+    n = 0
+    for src in ORDER_STORIES:
+        story = corr_play.compile_source(src)
+        for ops in ([{"op": "choose", "i": 0}, {"op": "choose", "i": 1}, {"op": "undo"}, {"op": "choose", "i": 2}, {"op": "save"}, {"op": "fresh_load", "slot": 0}, {"op": "choose", "i": 3}],
+                    [{"op": "choose", "i": 4}, {"op": "choose", "i": 3}, {"op": "choose", "i": 2}, {"op": "undo"}, {"op": "redo"}]):
+            case = {"story": story, "ops": ops, "real": real_play.play(story, ops, "main")}
+            n += 1
+            for f in compare_engines(case):
+                f.update({"family": "c19-render-order", "source": src, "ops": ops})
+                rep.violations.append(f)
+    rep.coverage.setdefault("families", {})["c19-render-order"] = {"cases": n}
+    rep.coverage["evaluations"] = rep.coverage.get("evaluations", 0) + n
